@@ -4,6 +4,8 @@ PROPS = [json.loads(l)["id"] for l in open("properties.jsonl")]
 BASE = "cd /repo && /venv/bin/python -m pytest -ra -q -p no:cacheprovider --timeout=900 --continue-on-collection-errors"
 TECH = "contract-based deductive verification: sidecar contracts on the real functions, VCs generated from /repo's AST by pyvc, discharged by z3 (cvc5 fallback); counter-models replayed natively"
 CLAIMED = {
+ "C16": dict(text="The real dispatch chain Validator/Generator/Representor/Substitutor.visit -> CustomSchema.__d42_*__ -> user hook is proved to hand the hook exactly the arguments it received, so custom.__accept__(V, **kw) satisfies the Accept[V] contract of the wrapped schema (verdict, error location, generated value, printed text as a function of (schema, indent, kwargs), substitution result); container visits use a member only as the receiver of __accept__ (any other use leaves the executor's subset) and forward their **kwargs unchanged (call-site obligations).",
+             note="Assumed contract of the user code: the four hooks forward to the inner schema with the same arguments (that is the property's premise). Schema.__accept__ itself (one forwarding line) is inlined, not separately specified.", ref="DESIGN.md 4.16"),
  "C15": dict(text="eq (the Schema.__eq__ override), Schema.__ne__, Props.__eq__ (two loops with invariants) and optional.__eq__ are proved to compute the specification relations struct_eq / props_eq / gen_eq (schema-vs-value = conforms, from either side; != is the negation); reflexivity, symmetry and transitivity are lemmas over those definitions with the members' laws as induction hypothesis. The Validator verdict contract is re-proved in this check.",
              note="Laws proved for schemas of the same class (a strict-subclass operand makes == asymmetric: not covered); congruence/discrimination clauses of the statement are not separate obligations. Known findings: transitivity through a missing (Nil) schema-valued parameter; NaN parameters.", ref="DESIGN.md 4.15"),
  "C13": dict(text="Contracts proved against the real bodies: union / AnySchema.__call__ / _flatten_schemas (recursive, loop invariant: the flattened alternatives accept exactly what the given ones accept), DictSchema.__add__ (right-biased merge of the key tables), __getitem__, keys, SchemaFacade.alias, make_required (two loops; same keys and members, optional flag cleared iff listed); the statement's equivalences are lemmas over those contracts and the definition of conforms. The Validator verdict contract is re-proved in this check.",
